@@ -116,6 +116,9 @@ var (
 type LockState struct {
 	Writer  bool
 	Readers int
+	// Waiting counts tasks blocked in Lock. As with sync.RWMutex, a pending writer keeps new readers out (so that it
+	// eventually gets the lock) - which is what makes a recursive read lock deadlock when a writer arrives in between.
+	Waiting int
 }
 
 // Free reports whether a lock request of the given kind would not block.
@@ -125,8 +128,23 @@ func (s *LockState) Free(write bool) bool {
 	if write {
 		return !s.Writer && s.Readers == 0
 	}
+	return !s.Writer && s.Waiting == 0
+}
+
+// FreeIgnoringWaiters is Free without the writer-preference rule (used by the waiting writer itself).
+//
+//go:norace
+func (s *LockState) FreeIgnoringWaiters(write bool) bool {
+	if write {
+		return !s.Writer && s.Readers == 0
+	}
 	return !s.Writer
 }
+
+// AddWaiting adjusts the number of writers blocked in Lock.
+//
+//go:norace
+func (s *LockState) AddWaiting(d int) { s.Waiting += d }
 
 //go:norace
 func (s *LockState) take(write bool) {
